@@ -39,6 +39,8 @@ bfind = z3.Function('bfind', Bytes, Bytes, I)   # bytes.index(sub) or -1
 
 rpow = z3.Function('rpow', R, I, R)     # real ** int  (int >= 0)
 rpow2 = z3.Function('rpow2', I, R)      # 2.0 ** int (any int)
+rmul = z3.Function('rmul', R, R, R)     # product of two non-constant reals (kept abstract: only congruence is used)
+rdiv = z3.Function('rdiv', R, R, R)     # quotient by a non-constant real (divisor != 0 checked by the interpreter)
 i2r = z3.ToReal
 
 x, a, b, c, v, k = z3.Ints('x!q a!q b!q c!q v!q k!q')
